@@ -46,3 +46,30 @@ package http1
 //@ func Server.Serve$1()
 //@   loop 0:
 //@     invariant evDepth >= 0 && (last == nil ==> evDepth == 0)
+
+// ---- C10 (sequential slices): HostClient.Do ----
+// pendingDelta: sum of the deltas passed to atomic.AddInt32(&c.pendingRequests, .) during this call.
+// sends: number of times the request was handed to c.do. reqIdempotent: the request is safe to repeat.
+//@ ghost var pendingDelta int
+//@ ghost var sends int
+//@ ghost var reqIdempotent bool
+
+// Assumed meaning of the default retry policy (its body tests !IsBodyStream and the method being one
+// of GET, HEAD, PUT, DELETE, OPTIONS, TRACE): it answers true only for requests that are safe to repeat.
+//@ extern client.DefaultRetryIf(req, resp, err) r
+//@   ensures r ==> reqIdempotent
+
+//@ func HostClient.Do(c, ctx, req, resp) err
+//@   props C10
+//@   abstract
+//@   replay-import context
+//@   replay-import github.com/cloudwego/hertz/pkg/protocol
+//@   replay-go c := &HostClient{ClientOptions: &ClientOptions{}}; cctx, cancel := context.WithCancel(context.Background()); cancel(); req := protocol.AcquireRequest(); resp := protocol.AcquireResponse(); req.SetRequestURI("http://127.0.0.1:1/"); _ = c.Do(cctx, req, resp); if c.PendingRequests() != 0 { fmt.Println("VCGO-VIOLATED PendingRequests() after Do returned =", c.PendingRequests()) }
+//@   requires pendingDelta == 0 && sends == 0
+//@   ghostset after AddInt32: pendingDelta = pendingDelta + arg1
+//@   ghostset after do: sends = sends + 1
+//@   top-ensures pendingDelta == 0
+//@   top-ensures sends <= 1 || reqIdempotent || old(c.ClientOptions.RetryIfFunc) != nil
+//@   loop 0:
+//@     invariant pendingDelta == 1 && 0 <= sends
+//@     invariant sends <= 0 || reqIdempotent || !isDefaultRetryFunc
